@@ -63,7 +63,10 @@ func (s resendState) FixMsgIn(session *session, msg *Message) (nextState session
 		}
 	}
 
-	if s.currentResendRangeEnd != 0 && s.currentResendRangeEnd < session.store.NextTargetMsgSeqNum() {
+	// The current chunk is complete: ask for the next one - unless nothing of the gap is left (a gap
+	// fill, or kept messages, can carry the expected number past the end of the whole range).
+	if s.currentResendRangeEnd != 0 && s.currentResendRangeEnd < session.store.NextTargetMsgSeqNum() &&
+		session.store.NextTargetMsgSeqNum() <= s.resendRangeEnd {
 		nextResendState, err := session.sendResendRequest(session.store.NextTargetMsgSeqNum(), s.resendRangeEnd)
 		if err != nil {
 			return handleStateError(session, err)
